@@ -48,7 +48,9 @@ func files() map[string]*pbfgen.File {
 		}
 		return g
 	}
-	blk := func(raw bool, gs ...pbfgen.Group) pbfgen.Block { return pbfgen.Block{Groups: gs, Enc: pbfgen.Enc{Raw: raw}} }
+	blk := func(raw bool, gs ...pbfgen.Group) pbfgen.Block {
+		return pbfgen.Block{Groups: gs, Enc: pbfgen.Enc{Raw: raw}}
+	}
 	return map[string]*pbfgen.File{
 		"A-grouped": {Header: pbfgen.StdHeader(), Blocks: []pbfgen.Block{
 			blk(false, dense(1, 2)), blk(false, dense(3)), blk(false, ways(10, 11)), blk(true, rels(20)), blk(false, ways(12), rels(21, 22))}},
@@ -102,9 +104,9 @@ func main() {
 		r.Assume("block offsets come from gen/pbfgen's encoder (sum of 4 + header + blob sizes)")
 		fs := files()
 		names := []string{"A-grouped", "B-empty-and-odd", "C-no-header", "D-interleaved-kinds"}
-		procs := []int{1, 2, 3}
+		procs := []int{1, 2, 3, 4, 6, 10, 11, 12}
 		if !r.Quick() {
-			procs = []int{1, 2, 3, 4, 8, 16}
+			procs = []int{1, 2, 3, 4, 5, 6, 7, 8, 9, 10, 11, 12, 16, 32, 33}
 		}
 		var cases []ccase
 		if r.ReplayPath != "" {
